@@ -264,6 +264,75 @@ prop("C07", "exploration",
      "runtime monitor: descriptor ledger over shimmed system calls + /proc/self/fd snapshots + canary descriptors", "DESIGN.md §3 C07", assumptions=ENGINE_ASSUME)
 
 
+prop("C03", "exploration",
+     "cases = iterations on a real netpoll.Poller whose loop has no source of wake-ups other than its eventfd (quick 20000, thorough 400000 per variant; default and poll_opt pollers): wait until the loop is blocked "
+     "in epoll_wait(-1) (3/4 of the iterations) or start while it is still draining, then 1-8 producers each Trigger 1-3 uniquely numbered high/low-priority tasks (every 200th iteration a burst of 300-1500 per "
+     "producer, crossing the 256-task low-priority batch and the 1024-task urgent threshold); the poller and queue sources are rewritten with a yield point before every atomic / queue / eventfd / epoll operation and "
+     "one or two focus points per iteration pause 0.1-0.5 ms. Oracle at quiescence: every accepted task ran exactly once, on the polling goroutine, high-priority tasks of one producer in issue order; tasks still "
+     "pending after the watchdog with every producer returned and the loop inside the same blocking epoll_wait at three samples one second apart = lost wake-up (confirmed by an unrelated Trigger that makes them "
+     "run). The engine-level clauses (AsyncWrite/AsyncWritev order at the peer, async callbacks exactly once, CloseWithCallback callback once, Wake = one OnTraffic) are checked by the engine jobs. "
+     "distinct_nontrivial = distinct global orders of yield-point hits per iteration (interleaving signatures)",
+     [
+         {"harness": "wake", "flavour": "shim+points", "args": {"quick": [], "thorough": []}, "timeout": {"quick": 900, "thorough": 3400}},
+         {"harness": "wake", "flavour": "shim+points", "tags": ["poll_opt"], "args": {"quick": ["--n", "8000"], "thorough": ["--n", "200000"]}, "timeout": {"quick": 900, "thorough": 3400}},
+         {"harness": "eng", "flavour": "shim", "args": {"quick": ["--mode", "c02", "--n", "6"], "thorough": ["--mode", "c02", "--n", "30"]}, "timeout": {"quick": 900, "thorough": 3400}},
+         {"harness": "eng", "flavour": "shim", "args": {"quick": ["--mode", "c04", "--n", "6"], "thorough": ["--mode", "c04", "--n", "30"]}, "timeout": {"quick": 900, "thorough": 3400}},
+     ],
+     "Exactly-once / ordering counters plus the state-based lost-wake-up predicate over the real poller under delay injection at the granularity of single atomic operations.",
+     "threads are real (delay injection, not a scheduler): interleavings are sampled; x86-TSO only; kqueue pollers cannot run here",
+     "runtime monitor: exactly-once counters + stuck predicate over shim state, delay injection at yield points", "DESIGN.md §3 C03")
+
+
+prop("C08", "exploration",
+     "cases = datagrams: per engine life (udp 127.0.0.1 / udp6 ::1, 1/2/4 loops, default and poll_opt builds) 1-16 client sockets (bound addresses in 4-byte and 16-byte IP form) each send 40-120 datagrams "
+     "[magic|client|seq|len|payload=f(client,seq)] with sizes {0, header only, tiny, small, 1472, 1473, 8192, 65507}, windowed (1/4/16 per client, bytes in flight bounded) so that loopback does not drop. "
+     "The handler checks in every OnTraffic that the readable bytes are exactly one datagram of this workload with the right length and payload (never a remainder of an earlier one), that RemoteAddr is the "
+     "sending socket's own address, consumes {everything, a prefix, nothing, 7 bytes by Read} and answers with Write (to the sender) or SendTo (to another client's address, in resolved 16-byte form for half "
+     "of the clients), each answer a unique record. Clients verify that they receive exactly the answers addressed to them, one intact datagram each, from the server's port. With the shim: OnTraffic count "
+     "== successful recvfrom calls, accepted answers == sendto calls; a missing datagram without such evidence is inconclusive (UDP may drop). distinct_nontrivial = distinct (network, datagram size "
+     "class, answer kind) and (network, consumption choice) tuples",
+     [
+         {"harness": "eng", "flavour": "shim", "args": {"quick": ["--mode", "c08"], "thorough": ["--mode", "c08"]}, "timeout": {"quick": 900, "thorough": 3400}},
+         {"harness": "eng", "flavour": "shim", "tags": ["poll_opt"], "args": {"quick": ["--mode", "c08", "--n", "4"], "thorough": ["--mode", "c08", "--n", "40"]}, "timeout": {"quick": 900, "thorough": 3400}},
+     ],
+     "Per-datagram identity oracle inside OnTraffic and at every client socket, cross-checked with the shim's recvfrom/sendto counts.",
+     "datagram sizes up to the read buffer (64 KiB); loopback only", "runtime monitor: per-datagram identity oracle + shim call counts", "DESIGN.md §3 C08", assumptions=ENGINE_ASSUME)
+
+
+prop("C18", "fault_enumeration",
+     "cases = injected faults that were reached: for each configuration ({LT, ET} x {reactor, reuseport} x {tcp, unix}; quick: three of the six, rotating with the seed) and each fault of the list "
+     "{read: ECONNRESET, ETIMEDOUT; write: EPIPE, ECONNRESET, ETIMEDOUT; writev: EPIPE, ECONNRESET; epoll_ctl MOD: ENOMEM, ENOENT; epoll_ctl DEL: ENOENT, ENOMEM; close: EINTR, EIO; epoll_ctl ADD of a "
+     "connection being registered: ENOMEM, ENOSPC; retryable: read/write EAGAIN (LT only), epoll_wait EINTR, accept4 EINTR/ECONNABORTED/ECONNRESET} x call index k = 1..K (K=2 quick, 6 thorough), "
+     "plus pairs (write EPIPE or read ECONNRESET followed by a failing epoll_ctl DEL or close during the tear-down of the same descriptor), one fresh engine with 6 echo connections whose peers verify "
+     "the echoed stream byte by byte (2 of them bulk senders that create back-pressure). The shim returns the errno at the k-th matching call and records the descriptor it hit (= the victim). Oracle: "
+     "victim closed with exactly one OnClose carrying a non-nil error (none if it never opened), its descriptor released exactly once (ledger), every other connection keeps verified echo progress, "
+     "at most the victim is closed, a fresh echo connection works, no ledger alarm, no panic; retryable faults: no OnClose, no lost connection, no corrupted byte, the connection being accepted is served. "
+     "evaluations counts only faults whose site was reached (unreached sites are listed in the evidence). distinct_nontrivial = distinct (configuration class, call, errno, framework call site) tuples reached",
+     [
+         {"harness": "eng", "flavour": "shim", "args": {"quick": ["--mode", "c18"], "thorough": ["--mode", "c18"]}, "timeout": {"quick": 1200, "thorough": 3500}},
+         {"harness": "eng", "flavour": "shim", "tags": ["poll_opt"], "tiers": ["thorough"], "args": {"thorough": ["--mode", "c18", "--n", "3"]}, "timeout": {"thorough": 3500}},
+     ],
+     "System-call fault enumeration through the overlay-injected shim: every I/O-path call site of the current tree is reachable by (call class, index); each injected fault is judged by the "
+     "lifecycle monitor, the peers' stream oracle, the descriptor ledger and a liveness probe.",
+     "errno sets follow the statement (other accept4 errors shut the engine down by design and are exercised under C06); recvfrom/sendto faults are not enumerated yet",
+     "fault injection at the system-call boundary (shim plan) + lifecycle/stream/ledger monitors", "DESIGN.md §3 C18", assumptions=ENGINE_ASSUME)
+
+prop("C19", "exploration",
+     "cases = control-API calls: per engine life (configurations as C01, LeastConnections / SourceAddrHash) a PRNG mix of Validate, CountConnections, Dup, DupListener (matching / non-matching), "
+     "Register (address context, net.Conn context, empty context), Stop is issued 40x on a never-started handle, then from 1-8 goroutines while running, continuing while Engine.Stop (live, already "
+     "expired or soon-expiring context) is under way, and 60x after shutdown; EventLoop.Register/Enroll/Execute with nil arguments while running. Oracle: every result against the state model "
+     "{never started, running, shutting down (any result, but no hang), shut down}; Stop()==nil implies OnShutdown and every OnClose already happened and Validate reports in-shutdown; Stop with an "
+     "expired context returns the context's error and Run still returns; every Register channel yields exactly one value (a connection whose OnOpen ran, or an error) and is then closed - a channel "
+     "still silent after 5.5 s with the engine shut down or two identical goroutine dumps is a violation; after shutdown no callback runs and the ledger holds no descriptor. "
+     "distinct_nontrivial = distinct (call, engine state) pairs and result kinds checked",
+     [
+         {"harness": "eng", "flavour": "shim", "args": {"quick": ["--mode", "c19"], "thorough": ["--mode", "c19"]}, "timeout": {"quick": 1200, "thorough": 3500}},
+     ],
+     "State-model monitor over the control API with calls racing an ongoing shutdown.",
+     "in the shutting-down state any result is accepted (the statement only demands no hang, panic or resurrection)",
+     "runtime monitor: state-machine model of the control API + goroutine-dump hang predicate + descriptor ledger", "DESIGN.md §3 C19", assumptions=ENGINE_ASSUME)
+
+
 # ---------------------------------------------------------------------------------------
 NOT_APPLICABLE = []
 
